@@ -18,6 +18,7 @@ import sys
 
 import common
 import c10_lib as L
+import siblings
 from common import Check, main_wrapper
 
 
@@ -165,7 +166,7 @@ def part_a(ck):
                         one_stripe(H, 9, k, 1, 1, pad, skirt, OH, y0, y1, 2, 1, in_domain=dom, tag="nearest")
     n_exh = len(reqs)
     # --- random, beyond the small scope (rows) ------------------------------------------------------
-    for _ in range(3000 if not ck.thorough else 40000):
+    for _ in range(2000 if not ck.thorough else 27000):
         H = rng.choice([rng.randint(1, 40), rng.randint(13, 300)])
         k, s, d = rng.randint(1, 8), rng.randint(1, 3), rng.randint(1, 2)
         kd = (k - 1) * d + 1
@@ -179,9 +180,39 @@ def part_a(ck):
             continue
         y0 = rng.randrange(OH)
         y1 = rng.randint(y0 + 1, OH)
-        one_stripe(H, 9, k, s, d, pad, skirt, OH, y0, y1, 1, 0, w0=rng.choice([0, 0, rng.randint(0, 9)]), tag="random")
+        w0_ = rng.choice([0, 0, rng.randint(0, 9)])
+        sp_ = None
+        if rng.random() < 0.3:
+            sp_ = (rng.randint(0, 3), rng.randint(0, 3), H + 5, 14)      # fused slice read: rows [off_h, off_h+H) of a taller tensor
+        one_stripe(H, 9, k, s, d, pad, skirt, OH, y0, y1, 1, 0, w0=w0_, split=sp_, tag="random")
+        # history: the same operator, ONE argument of the stripe changed, right after its base (the exhaustive scopes above contain
+        # every one-argument neighbour anyway; the random stream beyond the small scope did not)
+        if rng.random() < 0.6:
+            f = rng.choice(["y1", "y0", "w0", "skirt", "pad", "split", "split"])
+            if f == "split":
+                # the read offset alone changes (or appears / disappears)
+                sp2 = (sp_[0] + 1, sp_[1], sp_[2], sp_[3]) if sp_ is not None and rng.random() < 0.7 else (None if sp_ is not None else (2, 1, H + 5, 14))
+                one_stripe(H, 9, k, s, d, pad, skirt, OH, y0, y1, 1, 0, w0=w0_, split=sp2, tag="random-sibling")
+                ck.count("A_sibling_stripes")
+                continue
+            if f == "y1" and OH - y0 >= 2:
+                one_stripe(H, 9, k, s, d, pad, skirt, OH, y0, rng.choice([y for y in range(y0 + 1, OH + 1) if y != y1]), 1, 0, w0=w0_, split=sp_, tag="random-sibling")
+            elif f == "y0" and y1 >= 2:
+                one_stripe(H, 9, k, s, d, pad, skirt, OH, rng.choice([y for y in range(0, y1) if y != y0] or [y0]), y1, 1, 0, w0=w0_, split=sp_, tag="random-sibling")
+            elif f == "w0":
+                one_stripe(H, 9, k, s, d, pad, skirt, OH, y0, y1, 1, 0, w0=w0_ + rng.randint(1, 5), split=sp_, tag="random-sibling")
+            elif f == "skirt":
+                sk2 = list(skirt)
+                sk2[rng.choice([0, 2])] += 1
+                one_stripe(H, 9, k, s, d, pad, sk2, OH, y0, y1, 1, 0, w0=w0_, split=sp_, in_domain=False, tag="random-sibling")
+            elif f == "pad" and pad[2] > 0:
+                p2 = PadL(pad)
+                p2[0], p2[2] = pad[0] + 1, pad[2] - 1
+                p2.orig = list(p2)
+                one_stripe(H, 9, k, s, d, p2, skirt, OH, y0, y1, 1, 0, w0=w0_, split=sp_, in_domain=False, tag="random-sibling")
+            ck.count("A_sibling_stripes")
     # --- random, all four axes, arbitrary (also unreachable) parameters: model correspondence only ---
-    for _ in range(6000 if not ck.thorough else 60000):
+    for _ in range(4200 if not ck.thorough else 42000):
         ifm = [1, rng.randint(1, 20), rng.randint(1, 20), rng.choice([1, 3, 8, 16, 17])]
         bs = [0, rng.randint(0, 24), rng.randint(0, 24), rng.randint(0, 17)]
         be = [1, bs[1] + rng.randint(0, 9), bs[2] + rng.randint(0, 9), bs[3] + rng.randint(0, 17)]
@@ -196,6 +227,19 @@ def part_a(ck):
         up = rng.choice([1, 1, 1, 2, 2, 4, 3]) if not (strides and skirt and rng.random() < 0.02) else 0
         args = (bs, be, strides, skirt, ifm, rng.random() < 0.5, concat, rng.randint(1, 15), split, up, rng.random() < 0.25)
         add("box " + " ".join(L.tin_tokens(*args)), L.real_transform(*args), ("box", "random4d"))
+        if rng.random() < 0.5 and up != 0:
+            # one-argument sibling of the call above, same process, right after it
+            # (the box start may only move down and the end only up: Box() itself refuses start > end)
+            alts = {0: siblings.bump_elem(0, lo=0, only=(1, 2, 3), steps=(-1, -2, -7)), 1: siblings.bump_elem(1, lo=0, only=(1, 2, 3), steps=(1, 2, 7)),
+                    2: lambda r, b: None if b[2] else (r.randint(1, 3), r.randint(1, 3)),
+                    3: lambda r, b: None if b[3] else [r.randint(0, 4), r.randint(0, 4), r.randint(0, 5), r.randint(0, 5)],
+                    4: siblings.bump_elem(4, lo=1, only=(1, 2, 3)), 5: siblings.toggle(5), 6: siblings.bump_elem(6, lo=0, only=(1, 2, 3)),
+                    7: lambda r, b: b[7] + r.choice([1, 2]),
+                    8: lambda r, b: ([0, r.randint(0, 5), r.randint(0, 5), r.randint(0, 5)], [1, r.randint(1, 12), r.randint(1, 12), r.randint(1, 12)]) if b[8] is None
+                    else (None if r.random() < 0.3 else ([0, b[8][0][1] + 1, b[8][0][2], b[8][0][3]], b[8][1])), 9: siblings.choice_other(9, [1, 2, 4]), 10: siblings.toggle(10)}
+            for pos, a2 in siblings.derive(rng, args, alts, 1):
+                add("box " + " ".join(L.tin_tokens(*a2)), L.real_transform(*a2), ("box", "random4d-sibling"))
+                ck.count("A_sibling_box_arg_%d" % pos)
     # --- small functions ---------------------------------------------------------------------------------
     for h, s, k in itertools.product(range(0, 30), range(0, 5), range(0, 17)):
         try:
